@@ -175,7 +175,7 @@ def loop_tok(r, kind=None):
         m = r.pick([1, 2, 3, 5, 10, 50, 254, 255, r.range(1, 255)])
         return f"loop=direct m={m}"
     if kind == "pid":
-        return f"loop=pid p={fx(0.3)} i={fx(0.02)} d={fx(0.005)}"
+        return "loop=piddefault"
     p, i, d = [r.pick([r.range(-500, 500) / 100.0, bits2f(finite_float_bits(r))]) for _ in range(3)]
     return f"loop=pid p={fx(p)} i={fx(i)} d={fx(d)}"
 
